@@ -146,6 +146,14 @@ package cache
 //@   pure
 //@   ensures len(result) >= 1
 
+//@ extern io.NopCloser(r)
+//@   pure
+//@   ensures result != nil
+
+//@ extern bytes.NewReader(b)
+//@   pure
+//@   ensures result != nil
+
 // ASSUMED: no stream is longer than 2^62 bytes.
 //@ extern io.Copy(dst, src)
 //@   ensures 0 <= result0 && result0 <= B62()
